@@ -321,6 +321,15 @@ func obsC06(in string) string {
 			args = []string{"check", root}
 		case "transcode":
 			args = []string{"transcode", "-v", cfg.Val, root}
+		case "weights", "returns":
+			args = []string{"portfolio", cmd, "--color=false", "-v", cfg.Val, "--to", cfg.To}
+			if f := ivFlag[cfg.Interval]; f != "" {
+				args = append(args, f)
+			}
+			if cmd == "weights" && cfg.CSV {
+				args = append(args, "--csv")
+			}
+			args = append(args, root)
 		}
 		var first runResult
 		verdict := "runs=same"
@@ -355,7 +364,7 @@ func firstDiff(a, b string) string {
 // directives of every kind (they end up in different files), fully equal transactions.
 func genC06(out *caseWriter, seed uint64, n int, args []string) error {
 	var items []caseIn
-	cmds := []string{"balance", "balance", "balance", "print", "print", "transcode", "check"}
+	cmds := []string{"balance", "balance", "balance", "print", "print", "transcode", "check", "weights", "returns"}
 	for i := 0; i < n; i++ {
 		r := newRng(seed, "C06", i)
 		o := defaultOpts(r)
@@ -372,8 +381,13 @@ func genC06(out *caseWriter, seed uint64, n int, args []string) error {
 		cmd := pick(r, cmds)
 		cfg := genBalCfg(r, j, o, r.chance(60), false)
 		cfg.Alpha = r.chance(50)
-		if cmd == "transcode" {
+		if cmd == "transcode" || cmd == "weights" || cmd == "returns" {
 			cfg.Val = "CHF"
+		}
+		if i%8 == 6 {
+			// portfolio weights with commodities of exactly equal weight (same quantity, same price)
+			j, cfg = genC06WeightTies(r, o)
+			cmd = "weights"
 		}
 		if i%4 == 3 {
 			// exact ties between sibling report nodes in a valued report sorted by weight: a group with
@@ -384,7 +398,7 @@ func genC06(out *caseWriter, seed uint64, n int, args []string) error {
 			cmd = "balance"
 		}
 		runs := 8
-		if i%4 == 3 {
+		if i%4 == 3 || i%8 == 6 {
 			runs = 16
 		}
 		in := fmt.Sprintf("%s %d %d # %s | %s", cmd, runs, r.next()%1000000, cfg.Enc(), j.Enc())
@@ -428,6 +442,30 @@ func genC06Ties(r *rng, o genOpts) (Journal, BalCfg) {
 	}
 	r.shuffle(len(j), func(a, b int) { j[a], j[b] = j[b], j[a] })
 	cfg := BalCfg{From: "-", To: dateStr(o.startDate.AddDate(0, 0, 5)), Interval: "once", Val: "CHF", Alpha: false, CSV: r.chance(50)}
+	return j, cfg
+}
+
+// genC06WeightTies: k commodities held in equal quantity at equal prices (equal portfolio weights), CHF cash of
+// the same value or not; `portfolio weights -v CHF` sorted by weight must not depend on map order.
+func genC06WeightTies(r *rng, o genOpts) (Journal, BalCfg) {
+	names := []string{"AAPL", "MSFT", "GOOG", "X1", "ZZZ", "BTC", "EUR", "USD"}
+	np := r.perm(len(names))
+	k := r.rangeInt(2, 5)
+	d0 := dateStr(o.startDate)
+	var j Journal
+	j = append(j, Dir{Kind: 'O', Date: d0, Acc: "Equity:Equity"}, Dir{Kind: 'O', Date: d0, Acc: "Assets:Portfolio"}, Dir{Kind: 'O', Date: d0, Acc: "Assets:Bank"})
+	price := fmt.Sprintf("%d", r.rangeInt(1, 500))
+	qty := fmt.Sprintf("%d", r.rangeInt(1, 50))
+	for i := 0; i < k; i++ {
+		c := names[np[i]]
+		j = append(j, Dir{Kind: 'P', Date: d0, Com: c, Price: price, Target: "CHF"})
+		j = append(j, Dir{Kind: 'T', Date: dateStr(o.startDate.AddDate(0, 0, 1+r.intn(3))), Desc: "buy", Bookings: []Booking{{"Equity:Equity", "Assets:Portfolio", qty, c}}})
+	}
+	if r.chance(50) {
+		j = append(j, Dir{Kind: 'T', Date: dateStr(o.startDate.AddDate(0, 0, 2)), Desc: "cash", Bookings: []Booking{{"Equity:Equity", "Assets:Bank", "1000", "CHF"}}})
+	}
+	r.shuffle(len(j), func(a, b int) { j[a], j[b] = j[b], j[a] })
+	cfg := BalCfg{From: "-", To: dateStr(o.startDate.AddDate(0, 0, 40)), Interval: pick(r, []string{"once", "monthly", "weekly"}), Val: "CHF", CSV: r.chance(50)}
 	return j, cfg
 }
 
